@@ -51,3 +51,7 @@ Qed.
 
 (* range(n) over Z *)
 Definition zrange (n : Z) : list Z := map Z.of_nat (seq 0 (Z.to_nat n)).
+
+(* same list as [zrange n], built without unary naturals (for 2^16-element sweeps) *)
+Definition zupto (n : Z) : list Z :=
+  fst (Z.iter n (fun p => let z := Z.pred (snd p) in (z :: fst p, z)) ([], n)).
